@@ -211,7 +211,7 @@ C13_Deterministic == pc = "done" => fsys.routesContent = Canonical
 Expect(p) == [ops |-> DocumentedOps(p), security |-> OpSecurity(p), enforceOk |-> EnforceOk(p), schemesDeclared |-> SchemesDeclared(p),
               ambiguous |-> Ambiguous(p), operations |-> ExpectedOperations(p),
               wellLinked |-> \A m \in Range(p.methods) : IsApi(m) => WellLinked(p, m),
-              served |-> Served(p),
+              served |-> Served(p), handlers |-> Handlers(p),
               routes |-> {[name |-> m.name, wellLinked |-> WellLinked(p, m), wellLinkedAsBuilt |-> WellLinkedD(p, m, TRUE), ptag |-> m.ptag]
                              : m \in {x \in Range(p.methods) : IsApi(x)}}]
 EmitCase == pc = "config" => PrintT("CASE " \o ToJson([cfg |-> proj.cfg, ctrls |-> proj.ctrls, methods |-> proj.methods, types |-> proj.types, expect |-> Expect(proj)]))
